@@ -242,7 +242,7 @@ CHECKS["C15"] = dict(
     design_ref="5 C15")
 CHECKS["C16"] = dict(
     engine="authz", technique=_AUTHZ,
-    text="Finite table property: every registered route of the main app x 6 path spellings x 4 methods x 5 token states x 5 "
+    text="Finite table property: every registered route of the main app x 8 spellings (6 path spellings, 2 query strings) x 4 methods x 5 token states x 5 "
          "carriers is executed with OpenAPI auth on; NoDataWithoutToken and ValidTokenPasses are evaluated on all "
          "observations; gRPC leg: every registered request type (+ ServerCheck + one unregistered name) x 2 carriers x 5 token "
          "states x 7 cluster-token states sent to the real tonic services over a channel with an established bi-stream; "
@@ -254,7 +254,7 @@ CHECKS["C16"] = dict(
     design_ref="5 C16")
 CHECKS["C17"] = dict(
     engine="authz", technique=_AUTHZ,
-    text="Finite table property: every registered console route x 6 spellings x 4 methods x 11 credentials (no / garbage / "
+    text="Finite table property: every registered console route x 8 spellings x 4 methods x 11 credentials (no / garbage / "
          "expired session, each role, role sets, unknown role) on the real console app with the real CheckLogin middleware; "
          "LoginRequired, VisitorReadOnly, DeveloperLimits, Monotone, RoleSetIsUnion, VariantNotLooser evaluated on all.",
     note="sessions are placed in the session cache directly; classification of routes (login / user management / transfer / "
